@@ -50,6 +50,11 @@ pub struct XCase {
     /// is moved into the sandbox for the call and restored afterwards)
     #[serde(default)]
     pub target_form: u8,
+    /// regular files that already exist at the paths of file entries (by entry index) before extraction, with
+    /// their length and mode: unpacking over an older copy must leave exactly the entry's bytes (longer, shorter
+    /// and equally long older files)
+    #[serde(default)]
+    pub prefiles: Vec<(usize, u64, u32)>,
 }
 
 pub struct Extract;
@@ -276,7 +281,25 @@ impl Scenario for Extract {
             }
         }
         let target_form = if rs.chance(1, 4) { r.range(1, 4) as u8 } else { 0 };
-        let case = XCase { entries, by_writer, seekable, policy: gen_policy_short(&mut r), fault, precreate, target_form };
+        let mut prefiles = vec![];
+        let mut rp = Rng::derive(s, "prefiles");
+        if benign && rp.chance(1, 5) {
+            for (i, e) in entries.iter().enumerate() {
+                if e.kind == 0 && rp.chance(1, 2) {
+                    let n = e.content.len();
+                    let len = match rp.below(6) {
+                        0 => 0,
+                        1 => n.saturating_sub(1),
+                        2 => n,
+                        3 => n + 1,
+                        4 => 2 * n + 100,
+                        _ => rp.below(20_000),
+                    };
+                    prefiles.push((i, len, rp.pickc(&[0o644u32, 0o600, 0o666, 0o755, 0o640])));
+                }
+            }
+        }
+        let case = XCase { entries, by_writer, seekable, policy: gen_policy_short(&mut r), fault, precreate, target_form, prefiles };
         serde_json::to_value(case).unwrap_or(Value::Null)
     }
 
@@ -380,6 +403,19 @@ impl Scenario for Extract {
                     if p.starts_with(&target) && std::fs::create_dir_all(&p).is_ok() {
                         let _ = std::fs::set_permissions(&p, std::fs::Permissions::from_mode(*m));
                         ctx.probe("directory_existed_before_extraction");
+                    }
+                }
+            }
+        }
+        for (i, len, m) in &c.prefiles {
+            if let Some(n) = names.get(*i) {
+                if c.entries[*i].kind == 0 && name_is_safe(n) && !n.contains('\\') && !n.is_empty() && !n.ends_with('/') && n.len() < 1500 && n.split('/').all(|x| !x.is_empty() && x != "." && x != ".." && x.len() <= 255) {
+                    let p = target.join(n);
+                    if p.starts_with(&target) && p.parent().map(|d| std::fs::create_dir_all(d).is_ok()).unwrap_or(false) && !p.exists() {
+                        if std::fs::write(&p, vec![b'#'; *len as usize]).is_ok() {
+                            let _ = std::fs::set_permissions(&p, std::fs::Permissions::from_mode(*m));
+                            ctx.probe("file_existed_before_extraction");
+                        }
                     }
                 }
             }
@@ -590,7 +626,8 @@ impl Scenario for Extract {
                 let mut v = c.entries.clone();
                 v.remove(i);
                 let pc: Vec<(usize, u32)> = c.precreate.iter().filter(|(k, _)| *k != i).map(|(k, m)| (if *k > i { *k - 1 } else { *k }, *m)).collect();
-                out.push(XCase { entries: v, precreate: pc, ..c.clone() });
+                let pf: Vec<(usize, u64, u32)> = c.prefiles.iter().filter(|(k, _, _)| *k != i).map(|(k, l, m)| (if *k > i { *k - 1 } else { *k }, *l, *m)).collect();
+                out.push(XCase { entries: v, precreate: pc, prefiles: pf, ..c.clone() });
             }
         }
         if !matches!(c.policy, Policy::Pure) {
@@ -601,6 +638,9 @@ impl Scenario for Extract {
         }
         if !c.precreate.is_empty() {
             out.push(XCase { precreate: vec![], ..c.clone() });
+        }
+        if !c.prefiles.is_empty() {
+            out.push(XCase { prefiles: vec![], ..c.clone() });
         }
         if c.target_form != 0 {
             out.push(XCase { target_form: 0, ..c.clone() });
